@@ -545,7 +545,9 @@ def run_check(layer, lname: str, chk: List[Any]) -> Tuple[str, Any]:
     """Returns (outcome class, info): ok / decode-error / exc / hang."""
     DecodeError = STATE["DecodeError"]
     entry, pdu_hex, req_hex, target, _kind = chk
-    pdu = bytes.fromhex(pdu_hex)
+    pdu: Any = bytes.fromhex(pdu_hex)
+    if (len(pdu) + (pdu[0] if pdu else 0)) % 3 == 0:
+        pdu = bytearray(pdu)  # transports hand over bytearrays as often as bytes (python-can does)
     budget: InstrBudget = STATE["budget"]
     budget.arm(INSTR_LIMIT)
     try:
